@@ -10,8 +10,10 @@ A case is a JSON dict::
 (mod n) order accepted so far whatever its state, ``T`` advances the clock (``Market._update_time``), ``R`` switches
 running on/off (what sessions and the halt rule do), ``X`` is a matching round (``Market._execution``) when running,
 ``RS`` re-submits an already accepted order object and ``FM`` submits an order naming another market (both must be
-refused).  In continuous mode a round is attempted after every submit / cancel while running.
+refused), ``D`` (drain probe) deep-copies the market, sweeps a fraction of one side with one aggressive order and applies
+the round oracles to that sweep without touching the history (also done for both sides at the end of every history).  In continuous mode a round is attempted after every submit / cancel while running.
 """
+import copy
 import math
 import random
 import warnings
@@ -73,6 +75,7 @@ class MarketRun:
         self.flags: Dict[str, int] = {}
         self.n_rounds = 0
         self.log_pos = 0
+        self.last_round_logs: List[Any] = []
         self.hist: List[Any] = []
 
     # -- helpers
@@ -163,6 +166,10 @@ class MarketRun:
         self.compare("cancel")
         if self.case["continuous"] and self.M.running:
             self.round(continuous=False, incoming=None)
+        if self.case.get("drain_after_cancel") and was_resting:
+            # removal from the middle of the book: sweep the whole side on a copy and check the fill sequence
+            self.op_drain(mo.is_buy, 1.0)
+            self.op_drain(mo.is_buy, 0.5)
 
     def op_tick(self) -> None:
         m, M = self.m, self.M
@@ -258,6 +265,7 @@ class MarketRun:
                                 {"history_tail": self.hist[-12:], "traceback": crash.tb_text})
             raise crash
         written = self.new_logs()
+        self.last_round_logs = logs
         self.hist.append(["round", len(logs)])
         if [id(x) for x in written] != [id(x) for x in logs]:
             # the logger must see exactly the returned fills, once each, in order (C10's market-level part)
@@ -306,6 +314,14 @@ class MarketRun:
                 resting = lb if la is incoming else la
                 if resting is not incoming and resting.price is not None and price != resting.price:
                     self.fail("C01", "continuous_price_is_resting_price", f"{price!r} vs resting {resting.price!r}")
+            # --- C02: fills are handed out in priority order (ranks along the round's fill sequence never decrease)
+            for side in (True, False):
+                rank = {o.oid: i for i, o in enumerate(pre_sorted[side])}
+                seq = [rank[l.buy_order_id if side else l.sell_order_id] for l in logs]
+                for x, y in zip(seq, seq[1:]):
+                    if y < x:
+                        self.fail("C02", "fill_sequence", f"{'buy' if side else 'sell'} order {pre_sorted[side][x].brief()} was filled before the "
+                                                          f"higher-priority order {pre_sorted[side][y].brief()}")
             # --- C02: no fill while a higher-priority order of the same side keeps unfilled volume
             for side in (True, False):
                 blocked = None
@@ -369,6 +385,57 @@ class MarketRun:
                 if bb is None or ba is None or not (bb < ba):
                     self.fail("C03", "book_still_executable_getters", f"best bid {bb!r} best ask {ba!r} after a round")
         self.compare("round")
+
+    # -- drain probe: a deep sweep of one side on a copy of the market
+    def op_drain(self, drain_buys: bool, frac: float, exact_volume: Optional[int] = None) -> None:
+        """copy the real market (and the model), send one aggressive limit order that sweeps a fraction of the chosen side
+        in a single round and apply the round oracles to it.  The history itself is not affected."""
+        if not ({"C01", "C02", "C03"} & self.oracles):
+            return
+        side = self.M.book[drain_buys]
+        total = sum(o.vol for o in side)
+        if total == 0 or len(side) < 2:
+            return
+        sub = MarketRun.__new__(MarketRun)
+        sub.case = dict(self.case, continuous=False)
+        sub.oracles = self.oracles & {"C01", "C02", "C03"}
+        sub.tick, sub.p0 = self.tick, self.p0
+        sub.m = copy.deepcopy(self.m)
+        sub.M = copy.deepcopy(self.M)
+        sub.lg = sub.m.logger
+        sub.log_pos = len(sub.lg.rec)
+        sub.live, sub.by_id = [], {}
+        sub.flags = self.flags
+        sub.n_rounds = 0
+        sub.hist = self.hist + [["drain-probe", drain_buys, frac]]
+        sub.m._is_running = True
+        sub.M.running = True
+        vol = max(1, int(total * frac)) if exact_volume is None else exact_volume
+        if drain_buys:
+            price = self.tick  # a sell at the lowest grid price crosses every bid
+        else:
+            top = max([o.price for o in side if o.price is not None] + [self.p0])
+            price = math.ceil(top * 4 / self.tick) * self.tick
+        self.flag("drain_probe")
+        if len({o.price for o in side}) >= 3 and len(side) >= 5:
+            self.flag("deep_drain_probe")
+        sub.last_round_logs = []
+        sub.op_submit("L", not drain_buys, price, vol, None, 9)
+        sub.round(continuous=False, incoming=None)
+        if exact_volume is None and frac == 1.0 and "C01" in self.oracles:
+            # the sweep shows the order in which the engine hands out fills; if limits along it are not monotone, a sweep
+            # that stops right after the inversion must price an earlier-matched order through its limit: try exactly that
+            lim, acc = [], 0
+            for l in sub.last_round_logs:
+                o = sub.M.orders[l.buy_order_id if drain_buys else l.sell_order_id]
+                acc += l.volume
+                if o.price is None:
+                    continue
+                if lim and ((not drain_buys and o.price < lim[-1]) or (drain_buys and o.price > lim[-1])):
+                    self.flag("inversion_probe")
+                    self.op_drain(drain_buys, 1.0, exact_volume=acc)
+                    break
+                lim.append(o.price)
 
     # -- state comparison after every operation
     def compare(self, where: str) -> None:
@@ -466,12 +533,18 @@ class MarketRun:
             elif k == "X":
                 if self.M.running:
                     self.round(continuous=False, incoming=None)
+            elif k == "D":
+                self.op_drain(op[1], op[2])
             elif k == "RS":
                 self.op_resubmit(op[1])
             elif k == "FM":
                 self.op_foreign(op[1], op[2], op[3])
             else:
                 raise ValueError(f"unknown op {op!r}")
+        if self.case.get("final_drain", True):
+            for drain_buys in (True, False):
+                self.hist.append(["D", drain_buys, 0.5])
+                self.op_drain(drain_buys, 0.5)
         self.finish()
 
 
@@ -498,7 +571,7 @@ P0S = [100.0, 300.0, 10.5, 1000.0, 7.25, 50.0]
 @st.composite
 def market_cases(draw, max_ops: int = 60, market_frac: int = 2, illegal: bool = False, few_levels: bool = False,
                  batch_bias: bool = False, toggles: bool = True, max_volume: int = 10000, match_weight: int = 2,
-                 pre_ticks: bool = False):
+                 pre_ticks: bool = False, deep: bool = False):
     tick = draw(st.one_of(st.sampled_from(TICKS), st.floats(min_value=1e-3, max_value=20.0, allow_nan=False).filter(lambda x: x > 0)))
     p0 = draw(st.one_of(st.sampled_from(P0S), st.floats(min_value=5.0, max_value=5000.0, allow_nan=False)))
     if p0 < 8 * tick:
@@ -511,16 +584,31 @@ def market_cases(draw, max_ops: int = 60, market_frac: int = 2, illegal: bool = 
     offgrid = st.floats(min_value=-width, max_value=width, allow_nan=False).map(lambda x: base + x * tick)
     price = st.one_of(grid, grid, grid, offgrid) if few_levels else st.one_of(grid, grid, offgrid)
     price = price.filter(lambda p: p > 0)
+    if deep:
+        # a deep, mostly uncrossed book: bids below and offers above the reference price on many distinct levels
+        far_bid = st.integers(min_value=0, max_value=14).map(lambda k: base - k * tick)
+        far_ask = st.integers(min_value=1, max_value=14).map(lambda k: base + k * tick)
+        p0 = max(p0, 16 * tick + p0)
+        base = math.floor(p0 / tick) * tick
     volume = st.one_of(st.integers(1, 5), st.integers(1, 5), st.integers(1, 40), st.integers(1, max_volume))
     ttl = st.sampled_from([None, None, 1, 1, 2, 3, 5])
     agent = st.integers(0, 2)
     limit = st.tuples(st.just("L"), st.booleans(), price, volume, ttl, agent)
+    if deep:
+        small = st.integers(1, 4)
+        long_ttl = st.sampled_from([None, None, None, 5, 9])
+        limit = st.one_of(st.tuples(st.just("L"), st.just(True), far_bid, small, long_ttl, agent),
+                          st.tuples(st.just("L"), st.just(False), far_ask, small, long_ttl, agent),
+                          st.tuples(st.just("L"), st.just(True), far_bid, small, long_ttl, agent),
+                          st.tuples(st.just("L"), st.just(False), far_ask, small, long_ttl, agent),
+                          limit)
     market = st.tuples(st.just("M"), st.booleans(), volume, ttl, agent)
     cancel = st.tuples(st.just("C"), st.integers(0, 200))
     tick_op = st.just(("T",))
     run_op = st.tuples(st.just("R"), st.sampled_from([True, True, False]))
     match = st.just(("X",))
-    alts = [limit] * 8 + [market] * market_frac + [cancel] * 3 + [tick_op] * 3 + [match] * match_weight
+    alts = [limit] * 8 + [market] * market_frac + [cancel] * (6 if deep else 3) + [tick_op] * (1 if deep else 3) + [match] * match_weight
+    alts += [st.tuples(st.just("D"), st.booleans(), st.sampled_from([0.3, 0.5, 0.8, 1.0]))]
     if toggles:
         alts += [run_op]
     if illegal:
@@ -529,6 +617,8 @@ def market_cases(draw, max_ops: int = 60, market_frac: int = 2, illegal: bool = 
     n_ops = draw(st.integers(min_value=1, max_value=max_ops))
     ops = draw(st.lists(st.one_of(*alts), min_size=n_ops, max_size=n_ops))
     case = {"tick": tick, "p0": p0, "continuous": continuous, "running0": running0, "ops": [list(o) for o in ops]}
+    if deep:
+        case["drain_after_cancel"] = True
     if pre_ticks:
         # start the history shortly before one of the 100-step storage chunks ends
         case["pre_ticks"] = draw(st.sampled_from([0, 0, 0, 97, 98, 99, 198, 199]))
